@@ -126,6 +126,8 @@ static void run_coeffsweep(const Case& c) {
 }
 
 // ps <id> <n> <nb> ; extra = qmin qmax pmin pmax ; off = filling_set (nb) ; data ; ops = x y i n a0 a1 v0 v1 c p ...
+// psg <id> <n> <nb> ; extra = qmin qmax pmin pmax zoom ; no data: the constructor builds the Gaussian start
+//     distribution of width `zoom` itself (gaus, createFromProjections); same ops
 static void ps_print(const PhaseSpace& ps, uint32_t n, uint32_t nb) {
     print_data("out", ps.getData(), static_cast<size_t>(n) * n * nb);
     std::cout << "vals";
@@ -147,6 +149,10 @@ static void run_ps(const Case& c) {
     std::cout << "case " << c.id << '\n';
     std::unique_ptr<PhaseSpace> ps;
     try {
+        if (c.kind == "psg")
+            ps.reset(new PhaseSpace(c.extra[0], c.extra[1], 1e-3, c.extra[2], c.extra[3], 6.11e5, nullptr, 1.0, 1.0,
+                                    filling, static_cast<double>(c.extra[4]), nullptr));
+        else
         ps.reset(new PhaseSpace(c.extra[0], c.extra[1], 1e-3, c.extra[2], c.extra[3], 6.11e5, nullptr, 1.0, 1.0,
                                 filling, 1, c.data.data()));
     } catch (std::exception& e) { std::cout << "error ctor\n"; return; }
@@ -544,7 +550,7 @@ static bool dispatch_more(const Case& c) {
     if (c.kind == "fpiter") { run_fpiter(c); return true; }
     if (c.kind == "opts") { run_opts(c); return true; }
     if (c.kind == "ef") { run_ef(c); return true; }
-    if (c.kind == "ps") { run_ps(c); return true; }
+    if (c.kind == "ps" || c.kind == "psg") { run_ps(c); return true; }
     if (c.kind == "coeffsweep") { run_coeffsweep(c); return true; }
     if (c.kind == "rf") { run_rf(c); return true; }
     if (c.kind == "drift") { run_drift(c); return true; }
